@@ -4,7 +4,7 @@
     byte-string fields.  Both the Go harness and this file follow the same field layout, so
     the OCaml driver contains no per-function glue at all. *)
 From Coq Require Import Strings.String.
-From PatVerif Require Import Base.GoSem Model.Quicwire Model.Codecs Model.BatchCodecs Model.Pad Model.Attester Model.AttesterVerify.
+From PatVerif Require Import Base.GoSem Model.Quicwire Model.Codecs Model.BatchCodecs Model.Pad Model.Attester Model.AttesterVerify Model.Frontends.
 Open Scope N_scope.
 
 Definition nm (s : string) : list byte := list_byte_of_string s.
@@ -208,6 +208,39 @@ Definition dispatch_attester (name : list byte) (a : list (list byte)) : option 
           signed_message r]
   else None.
 
+(** * Front ends (C03): is the implementation's verdict consistent with the front end of the model?
+    args: impl verdict (00 error, 01 ok, ff panic), inputs.  Primitives are instantiated with
+    always-succeeding constants, so an [Err] of the model is a rejection by the front end itself:
+    the implementation must then have returned an error; a panic is never consistent. *)
+Definition consistent {A} (impl : list byte) (fe : res A) : list (list byte) :=
+  if bytes_eqb impl st_panic then [st_none]
+  else match fe with
+       | Panic => [st_panic]
+       | Err => if bytes_eqb impl st_ok then [st_none] else [st_ok]
+       | Ok _ => [st_ok]
+       end.
+Definition z98 : list byte := repeat x00 98.
+Definition dispatch_frontends (name : list byte) (a : list (list byte)) : option (list (list byte)) :=
+  if is name "fe_fin1" then
+    Some (consistent (arg a 0) (fin1 (fun _ => true) (fun _ => true) (fun _ _ => Some (repeat x00 48)) z98 (arg a 1)))
+  else if is name "fe_fin3" then
+    Some (consistent (arg a 0) (fin3 (fun _ _ => Some []) (fun _ => Some (repeat x00 256)) (fun _ _ => true) [] z98 (arg a 1)))
+  else if is name "fe_fin5" then
+    let n := N.to_nat (narg a 1) in
+    Some (consistent (arg a 0) (fin5 (fun _ => true) (fun _ => true) (fun el _ => Some (map (fun _ => repeat x00 64) el))
+                                     (repeat z98 n) (arg a 2)))
+  else if is name "fe_eval3" then
+    let '(ok, r) := um_req3 {| q3_key := []; q3_nkid := []; q3_enc := []; q3_sig := [] |} (arg a 1) in
+    Some (consistent (arg a 0) (if ok && negb (Nat.ltb (length (q3_enc r)) 32) then Ok tt else Err))
+  else if is name "um_req5_go" then
+    Some (match um_req5_go (arg a 0) with
+          | Ok (k, e, _) => [st_ok; num1 k; nat8 (length e); concat e]
+          | Err => [st_none] | Panic => [st_panic] end)
+  else if is name "dec_batch_go" then
+    Some (match dec_batch_go (arg a 0) with Ok l => st_ok :: show_bitems l | Err => [st_none] | Panic => [st_panic] end)
+  else if is name "unpad_go" then Some (out_res_bytes (unpad_go (arg a 0)))
+  else None.
+
 Definition first_some {A} (l : list (option A)) (d : A) : A :=
   match List.find (fun o => match o with Some _ => true | None => false end) l with
   | Some (Some r) => r | _ => d end.
@@ -216,4 +249,5 @@ Definition dispatch (name : list byte) (a : list (list byte)) : list (list byte)
   match dispatch_quicwire name a with Some r => r | None =>
   match dispatch_codecs name a with Some r => r | None =>
   match dispatch_pad name a with Some r => r | None =>
-  match dispatch_attester name a with Some r => r | None => [st_unknown] end end end end.
+  match dispatch_attester name a with Some r => r | None =>
+  match dispatch_frontends name a with Some r => r | None => [st_unknown] end end end end end.
